@@ -541,6 +541,13 @@ func (w *world) isolate(s *slot, on bool) {
 		if o == s {
 			continue
 		}
+		// the peer at the other end of a cut link may end up on the far side
+		// of whoever leads next (lag heals before isoL does: the old leader
+		// can win with the healed follower while its link to the third peer
+		// is still cut) and then catch up through a snapshot install, which
+		// hands nothing to the tracker: only peers that kept every link
+		// count as undisturbed
+		o.disturbed = true
 		if on {
 			w.mn.DisconnectPeers(s.host.ID(), o.host.ID())
 			w.mn.UnlinkPeers(s.host.ID(), o.host.ID())
